@@ -142,8 +142,34 @@ class Bins:
             self.harness_err = out[-3000:]
         return rc == 0
 
+    def build_race(self):
+        """the same harness under Go's race detector (C20)"""
+        self.race = os.path.join(self.dir, "vharness-race")
+        cmd = ["go", "build", "-race", "-tags", "verif", "-o", self.race, "."]
+        with Lock("go.lock"):
+            rc, out = sh(cmd, cwd=HARNESS_SRC, env=GOENV, timeout=1200)
+        return rc == 0, out[-2000:]
+
     def cleanup(self):
         shutil.rmtree(self.dir, ignore_errors=True)
+
+
+def run_race(binary, lines, workers=8):
+    """run the cases under the race detector; returns (number of reports, text of the first ones)"""
+    if not lines:
+        return 0, ""
+    size = (len(lines) + workers - 1) // workers
+    shards = [lines[i:i + size] for i in range(0, len(lines), size)]
+
+    def one(sh_):
+        env = dict(os.environ, GORACE="halt_on_error=0", GOMAXPROCS="4")
+        p = subprocess.run([binary], input="\n".join(sh_) + "\n", stdout=subprocess.PIPE, stderr=subprocess.PIPE, text=True,
+                           timeout=3600, env=env)
+        return p.stderr
+    with ThreadPoolExecutor(max_workers=len(shards)) as ex:
+        errs = list(ex.map(one, shards))
+    text = "\n".join(errs)
+    return text.count("WARNING: DATA RACE"), text[:6000]
 
 
 def _run_shard(binary, lines, extra_env=None, timeout=3600):
@@ -355,6 +381,30 @@ def run_check(prop, tier, seed, replay=None):
                     violations.append(("corr", path, "correspondence %s broken" % g.name))
             if not diffs and not unexplained_bad:
                 discharged += 1
+        # the race detector, for properties that ask for it
+        if replay is None and hasattr(prop, "race_cases") and ok:
+            obligations += 1
+            t0 = time.time()
+            rcases = prop.race_cases(tier, rng)
+            okb, berr = bins.build_race()
+            if not okb:
+                path = os.path.join(ROOT, "replays", "%s-race-build.txt" % pid)
+                open(path, "w").write("the harness does not build with -race:\n" + berr)
+                violations.append(("corr", path, "race build failed"))
+                nrep = -1
+            else:
+                nrep, rtext = run_race(bins.race, rcases)
+                total_eval += len(rcases)
+                if nrep:
+                    path = os.path.join(ROOT, "replays", "%s-race.txt" % pid)
+                    open(path, "w").write("Go's race detector reports %d data race(s) in the package while the harness replays these cases "
+                                          "(build: go build -race -tags verif; run with GORACE=halt_on_error=0):\n\n%s\n\ncases:\n%s\n"
+                                          % (nrep, rtext, "\n".join(rcases[:50])))
+                    violations.append(("viol", path, "data race"))
+                else:
+                    discharged += 1
+            cov_groups.append({"probe": "race-detector", "cases": len(rcases), "exhaustive": False, "disagreements": 0,
+                               "monitor_rejections": max(nrep, 0), "wall_s": round(time.time() - t0, 1), "signature_histogram": {}})
         if proof_bad:
             path = os.path.join(ROOT, "replays", "%s-proof.txt" % pid)
             open(path, "w").write("proof step of %s failed:\n%s\n" % (pid, "\n".join(proof_bad)))
